@@ -16,7 +16,7 @@ from . import bootstrap as B
 from . import probes, spec as S
 from .jobs import REGISTRY, Collector, job
 from .seljobs import mk_sel_spec
-from .sym import Sym, same, short
+from .sym import Sym, mentions, same, short
 
 
 def do(d, thunk_sync, thunk_async):
@@ -95,6 +95,9 @@ def gen_hist_spec(rng):
         fn = sp["nodes"][i]["fn"]
         if rng.random() < 0.25 and sum(1 for m in sp["nodes"] if m["fn"] == fn) == 1:
             sp["fns"][fn]["shape"] = ["none"]
+        elif rng.random() < 0.4:
+            # a handle whose identity matters (a connection, a loaded model): every later execution is handed this very object
+            sp["fns"][fn]["shape"] = ["handle"]
     sp["is_async"] = rng.random() < 0.4
     if rng.random() < 0.4:
         # activation flags taken from SETUP results: whether a node runs is only known once its setup node has a value
@@ -237,6 +240,10 @@ def c11_history(col, rng, hidx, jobref=None):
         if op == "copy":
             j = max(insts) + 1
             insts[j] = copy.deepcopy(d)
+            for v_ in insts[j].results.values():
+                # the copied instance owns copies of the setup results made so far: for IT they are the objects to hand on
+                if hasattr(v_, "copied"):
+                    v_.copied = False
             model[j] = dict(m)
             total_setup_runs[j] = dict(total_setup_runs[k])
             hist.append(("deepcopy", k, j))
@@ -301,6 +308,12 @@ def c11_history(col, rng, hidx, jobref=None):
         col.counters["c11_ops"] += 1
         rp2 = dict(rp, history=list(hist))
         col.generic(log, rp2)
+        for e in log:
+            if e["kind"] == "COPY_DELIVERED":
+                # the object a setup node produced is what every execution hands on - not a copy of it
+                col.violation(pid, "a_copy_of_a_setup_result_was_handed_to_a_consumer", dict(
+                    consumer=e.get("node"), value=repr(e.get("value"))[:160], history=hist, source=S.render(sp)), rp2)
+                break
         if res[0] != "ok":
             col.violation(pid, "operation_raised", dict(op=op, exc=repr(res[1])[:300], history=hist, source=S.render(sp)), rp2)
             return
@@ -346,19 +359,23 @@ def c11_history(col, rng, hidx, jobref=None):
         col.sample(dict(source=S.render(sp), setup=[ids[i] for i in sorted(setup)], is_async=sp["is_async"], history=S.jsonable(hist)))
 
 
-def c11_illegal(col, rng):
-    """setup node depending on a non-setup node / on a DAG argument must be rejected at build - whatever the way the
+def illegal_setup_variants(rng, deps=("non_setup_dep", "dag_arg")):
+    """(variant name, spec) of DAGs whose setup node depends on a non-setup node / on a DAG argument - whatever the way the
     dependency is passed (first / later positional argument, keyword argument, after constants, indexed, activation flag)."""
-    pid = "C11"
-    for dep in ("non_setup_dep", "dag_arg"):
-        for how in ("pos_first", "pos_after_const", "kw", "kw_after_const_pos", "flag", "pos_indexed", "second_of_two_deps"):
-            if dep == "dag_arg" and how == "pos_indexed":
-                continue
+    for dep in deps:
+        for how in ("pos_first", "pos_after_const", "kw", "kw_after_const_pos", "flag", "pos_indexed", "second_of_two_deps",
+                    "kw_indexed_twice", "flag_indexed"):
             # site 0: plain producer, site 1: a legal setup node, site 2: the offending setup node, site 3: a user
             sp = mk_sel_spec(4, [(2, 3)], rng, setup={1, 2})
-            bad = ["n", 0, [0] if how == "pos_indexed" else []] if dep == "non_setup_dep" else ["p", "x"]
+            keys = [0] if how == "pos_indexed" else ["models", 0] if how == "kw_indexed_twice" else ["on"] if how == "flag_indexed" else []
+            # (an indexed DAG argument - `cfg["model"]` - is a usage of that argument like the argument itself)
+            bad = ["n", 0, keys] if dep == "non_setup_dep" else ["p", "x", keys]
             nd = sp["nodes"][2]
-            if how == "pos_first":
+            if how == "kw_indexed_twice":
+                nd["kwargs"] = {"k": bad}
+            elif how == "flag_indexed":
+                nd["active"] = bad
+            elif how == "pos_first":
                 nd["args"] = [bad]
             elif how == "pos_after_const":
                 nd["args"] = [["c", "model"], ["c", 3], bad]
@@ -373,16 +390,52 @@ def c11_illegal(col, rng):
                 nd["args"] = [bad]
             else:
                 nd["args"] = [["n", 1, []], bad]  # a legal setup dependency first, the illegal one second
-            variant = "%s:%s" % (dep, how)
-            col.evaluations += 1
-            col.counters["c11_illegal_build_cases"] += 1
-            try:
-                S.build_tawazi(sp)
-                col.violation(pid, "illegal_setup_dependency_not_rejected(%s)" % variant, dict(source=S.render(sp)), {"kind": "c11_illegal"})
-            except BaseException as e:  # noqa: BLE001
-                if isinstance(e, (KeyboardInterrupt, SystemExit)):
-                    raise
-                col.counters["c11_illegal_build_rejected"] += 1
+            yield "%s:%s" % (dep, how), sp
+
+
+def c11_illegal(col, rng):
+    """setup node depending on a non-setup node / on a DAG argument must be rejected at build"""
+    pid = "C11"
+    for variant, sp in illegal_setup_variants(rng):
+        col.evaluations += 1
+        col.counters["c11_illegal_build_cases"] += 1
+        try:
+            S.build_tawazi(sp)
+            col.violation(pid, "illegal_setup_dependency_not_rejected(%s)" % variant, dict(source=S.render(sp)), {"kind": "c11_illegal"})
+        except BaseException as e:  # noqa: BLE001
+            if isinstance(e, (KeyboardInterrupt, SystemExit)):
+                raise
+            col.counters["c11_illegal_build_rejected"] += 1
+
+
+def c15_setup_fed_by_argument(col, rng, jobref=None):
+    """C15's side of the same rule: IF a DAG whose setup node uses a DAG argument can be built at all, its second call must still
+    be computed from the second call's argument (a setup result computed from the first call's argument would leak into it)."""
+    pid = "C15"
+    for variant, sp in illegal_setup_variants(rng, deps=("dag_arg",)):
+        col.evaluations += 1
+        plain = {name: probes.mkprobe(name, shape=None, setup=bool(fs.get("setup"))) for name, fs in sp["fns"].items()}
+        try:
+            d, _e, _p = S.build_tawazi(sp, plain=plain)
+        except BaseException as e:  # noqa: BLE001
+            if isinstance(e, (KeyboardInterrupt, SystemExit)):
+                raise
+            col.counters["c15_dags_with_argument_fed_setup_node_refused_at_build"] += 1
+            continue
+        col.counters["c15_dags_with_argument_fed_setup_node_built"] += 1
+        rp = {"kind": "rerun_job", "job": dict(jobref or {}), "variant": variant, "source": S.render(sp)}
+        outs = []
+        for k in (1, 2):
+            B.reset_log()
+            r = probes.run_op("call", lambda k=k: op_call(d, [Sym("arg", "leak", k)]))
+            outs.append((r, [(e["node"], e["args"], e["kwargs"]) for e in B.snapshot() if e["kind"] == "FENTER"]))
+        seen_first = [x for (_n, a, kw) in outs[1][1] for x in list(a) + list(kw.values())
+                      if isinstance(x, Sym) and mentions(x, lambda q: q == ("arg", "leak", 1))]
+        r2 = outs[1][0]
+        leaked = (r2[0] == "ok" and mentions(r2[1], lambda q: q == ("arg", "leak", 1))) or bool(seen_first)
+        if leaked:
+            col.violation(pid, "later_call_computed_from_an_earlier_calls_argument(setup node fed by a DAG argument: %s)" % variant,
+                          dict(second_call=short(r2[1] if r2[0] == "ok" else r2, 300), source=S.render(sp)), rp)
 
 
 def c11_illegal_through_operators(col, k):
@@ -765,6 +818,7 @@ def job_hist15(j):
     col = Collector()
     for h in range(j["n_histories"]):
         c15_history(col, rng, h, jobref=j)
+    c15_setup_fed_by_argument(col, rng, jobref=j)
     return col.result()
 
 
